@@ -20,7 +20,11 @@ LEVEL_NOTE = "metamorphic pairs executed on the real code; maps x->(x+1)/2, x^2,
 
 MAPS = {"affine": lambda x: (x + 1) / 2, "square": lambda x: x * x, "concave": lambda x: 1 - (1 - x) * (1 - x),
         # exact power-of-two rescalings: still strictly increasing, scores stay distinct but become tiny / close together
-        "tiny": lambda x: x * 2.0 ** -30, "near-one": lambda x: 1 - (1 - x) * 2.0 ** -20}
+        "tiny": lambda x: x * 2.0 ** -30, "near-one": lambda x: 1 - (1 - x) * 2.0 ** -20,
+        # all scores within 2^-30 of 1: distinct in float64 (the dtype used here), ONE value in float32
+        "squeezed": lambda x: 1 - (1 - x) * 2.0 ** -30, "squeezed-at-1024": lambda x: 1024 + x * 2.0 ** -20,
+        # negative scores (logits, log-probabilities): exact shifts / scalings
+        "negative": lambda x: x - 2, "negative-large": lambda x: (x - 1) * 1024}
 
 
 def val(f):
@@ -89,6 +93,24 @@ def cases(rng, big):
     kk = rng.choice([1, 2, 5, None])
     yield f"monotone[{mname}]:retrieval_precision", lambda: same(val(lambda: F.retrieval_precision(rs, ry, k=kk)), val(lambda: F.retrieval_precision(g(rs), ry, k=kk)))
     yield f"monotone[{mname}]:retrieval_recall", lambda: same(val(lambda: F.retrieval_recall(rs, ry, k=kk)), val(lambda: F.retrieval_recall(g(rs), ry, k=kk)))
+    # class forms of the retrieval metrics (pruned top-k state, empty_target_action): few relevant items, often all below the top-k
+    import torcheval.metrics as M
+    order = torch.argsort(rs)
+    ry2 = torch.zeros_like(ry)
+    ry2[order[: rng.choice([0, 1, 2])]] = 1                      # relevant items among the LOWEST scores only
+    if rng.random() < 0.3:
+        ry2 = ry
+    cut = rng.randint(0, rn)
+    for cnm, rcls in (("RetrievalPrecision", M.RetrievalPrecision), ("RetrievalRecall", M.RetrievalRecall)):
+        for eta in ("neg", "pos", "skip"):
+            def rrun(x, rcls=rcls, eta=eta):
+                mm = rcls(k=kk, empty_target_action=eta)
+                if cut > 0:
+                    mm.update(x[:cut], ry2[:cut])
+                if cut < rn:
+                    mm.update(x[cut:], ry2[cut:])
+                return mm.compute()
+            yield f"monotone[{mname}]:{cnm}[class,{eta}]", lambda rrun=rrun: same(val(lambda: rrun(rs)), val(lambda: rrun(g(rs))))
     # --- weight scaling by an exact positive factor
     c = rng.choice([0.25, 0.5, 2.0, 4.0, 8.0])
     x = torch.tensor([rng.randint(-16, 16) / 8 for _ in range(n)], dtype=torch.float64)
